@@ -24,7 +24,7 @@ pub fn property() -> Property {
             "tokio paused clock and current-thread scheduler; the harness pipe",
             "server session wired as handle_connection wires it (callback channel, recv_loop, process_stream_data)",
         ],
-        families: vec![(Box::new(PipeFam), 3_000, 30_000), (Box::new(crate::props::e2e::TunnelFam), 40, 800)],
+        families: vec![(Box::new(PipeFam), 3_000, 60_000), (Box::new(crate::props::e2e::TunnelFam), 40, 1_500)],
     }
 }
 
